@@ -1108,7 +1108,9 @@ where
                 .into_iter()
                 .map(|elem| match elem {
                     Some(ExprOrSpread { spread: None, expr }) => match *expr {
-                        Expr::Ident(ident) if ident.sym == left.sym => {
+                        // the same binding, not merely the same spelling (a generated `_slot`
+                        // is not the user's `_slot`, a parameter `x` is not another scope's `x`)
+                        Expr::Ident(ident) if ident.sym == left.sym && ident.ctxt == left.ctxt => {
                             let name = private_ident!(format!("_{}", ident.sym));
                             self.injecting_consts.push(VarDeclarator {
                                 span: DUMMY_SP,
